@@ -11,10 +11,13 @@ import (
 	metav1 "k8s.io/apimachinery/pkg/apis/meta/v1"
 	"k8s.io/apimachinery/pkg/util/sets"
 
+	"github.com/vishvananda/netlink"
+
 	podeni "github.com/AliyunContainerService/terway/pkg/controller/pod-eni"
 	"github.com/AliyunContainerService/terway/pkg/controller/status"
 	"github.com/AliyunContainerService/terway/pkg/eni"
 	"github.com/AliyunContainerService/terway/pkg/k8s"
+	"github.com/AliyunContainerService/terway/pkg/tc"
 	"github.com/AliyunContainerService/terway/rpc"
 	"github.com/AliyunContainerService/terway/types"
 	"github.com/AliyunContainerService/terway/types/controlplane"
@@ -106,6 +109,14 @@ func c15Exec(c *Ctx, op string) string {
 			}
 			c.Violate("C15/bandwidth/panic/"+kind, fmt.Sprintf("parseBandwidth(%q) panics", s), op)
 		}
+		// an accepted value is what the plugin then shapes with (pkg/tc SetRule, the non-edt path): on a link that does not exist
+		// the answer is the kernel's error, never a panic
+		if class == "ok" && shapePanics(v) {
+			c.Violate("C15/bandwidth/shaping-panic", fmt.Sprintf("the accepted bandwidth %q (%d bytes/s) makes tc.SetRule panic", s, v), op)
+		}
+		if class == "ok" {
+			c.Count("bandwidth-shaped")
+		}
 		// well-formed values are accepted with or without a unit
 		if want, ok := exactBW(s); ok && class != "ok" && class != "panic" {
 			c.Violate("C15/bandwidth/rejected-wellformed", fmt.Sprintf("parseBandwidth(%q) rejected, exact value %s", s, want), op)
@@ -119,6 +130,21 @@ func c15Exec(c *Ctx, op string) string {
 		return fmt.Sprintf("ok %d", v)
 	}
 	return "bad-op"
+}
+
+// shapePanics runs the plugin's token-bucket arithmetic (pkg/tc) for an accepted rate, in bytes/s as the annotation gives it and in
+// the units the kubelet's bits/s value arrives in, against a link index nothing has.
+func shapePanics(v uint64) (panicked bool) {
+	defer func() {
+		if r := recover(); r != nil {
+			panicked = true
+		}
+	}()
+	dev := &netlink.Dummy{LinkAttrs: netlink.LinkAttrs{Name: "verif-none", Index: 1 << 30, MTU: 1500}}
+	for _, rate := range []uint64{v, v / 8} {
+		_ = tc.SetRule(dev, &tc.TrafficShapingRule{Rate: rate})
+	}
+	return false
 }
 
 // c15Fuzz drives one user-input entry point under recover; any panic is a violation.
